@@ -161,3 +161,24 @@ From J1939P Require Import FlowProofs OrderProofs.
 Theorem C01_state_before_send : never_commits_after_send order_send21 /\ never_commits_after_send order_burst21.
 Proof. split; [exact order_send21_ok|exact order_burst21_ok]. Qed.
 Print Assumptions C01_state_before_send.
+
+From J1939P Require Net21 Net21Proofs.
+(* T01.8 — end to end: two model nodes on one bus (Net21.v: frames first, then both job threads; the clock advances only when
+   the network is idle).  A calls send_pgn with ANY payload p of 9..1785 bytes for B's address, with ANY window sizes on the
+   two sides: after finitely many steps nothing is queued, no session is left on either side, B's subscribers have been
+   called exactly once each with exactly p, and A has put on the wire exactly RTS, DT_1 .. DT_n in order.  The network
+   model itself is run against two real stacks on the virtual bus at every check (closed-loop correspondence). *)
+Theorem C01_closed_loop_delivers : forall prio sa dest dp pf p t0 A0 B0,
+  0 <= prio < 8 -> 0 <= sa < 255 -> 0 <= dest < 255 -> 0 <= pf < 240 -> 0 <= dp < 2 -> 8 < len p <= 1785 -> 0 < t0 ->
+  n_snd A0 = [] /\ n_rcv A0 = [] /\ n_timers A0 = [] /\ n_cmdt_iv A0 = None /\ accepts A0 sa = true /\ 1 <= n_maxp A0 ->
+  n_snd B0 = [] /\ n_rcv B0 = [] /\ n_timers B0 = [] /\ accepts B0 dest = true /\ 1 <= n_maxp B0 ->
+  let pv := dp * 65536 + pf * 256 in
+  let num := Z.of_nat (npk (length p)) in
+  exists j, let s := Net21.steps j (Net21.net_send (Net21.net0 A0 B0 t0) dp pf dest prio sa p) in
+    Net21.qa s = [] /\ Net21.qb s = [] /\
+    n_snd (Net21.na s) = [] /\ n_rcv (Net21.na s) = [] /\ n_snd (Net21.nb s) = [] /\ n_rcv (Net21.nb s) = [] /\
+    Net21.evb s = deliveries B0 7 pv sa dest p /\
+    Net21.wab s = tp21_rts sa dest prio pv (len p) num (Z.min (n_maxp A0) num)
+                  :: map (fun k => tp21_dt sa dest (dt_payload p (Z.of_nat k))) (seq 0 (npk (length p))).
+Proof. exact Net21Proofs.closed_loop_delivers. Qed.
+Print Assumptions C01_closed_loop_delivers.
